@@ -148,6 +148,11 @@ def oracles(case, impl, model):
             line, ty = line.split(" | TY ")
             out.append(("C17", "after `%s` a table entry or returned field is a %s, not an owned bytes/str object"
                         % (cmd[:120], ty)))
+            if w[0] in ("ddec", "ddecb", "pipe"):
+                # the decoder's results are byte strings (raw mode) or text: another type is not the header list the
+                # RFC assigns (it compares equal to it, but e.g. cannot be hashed or is a view that changes later)
+                for pid_ in ("C02", "C18", "C01"):
+                    out.append((pid_, "after `%s` a returned field or table entry has type %s, not bytes / str" % (cmd[:120], ty)))
         if " | COST " in line:
             line = line.split(" | COST ")[0]
         if " | RC " in line:
